@@ -149,6 +149,19 @@ def _alloc_inv(ctx):
 ALLOC_LOOP = LoopSpec(_alloc_inv, name="sizing search")
 
 
+def _alloc_inner_inv(ctx):
+    """whole-unit step-up loop inside the sizing search: the same invariant, plus full_outlay_of_1_more == full(q + 1)"""
+    st = ctx.cur
+    out = _alloc_inv(ctx)
+    S = SpecState(st.heap.copy())
+    self = st.locals["self"]
+    out.append(("one-more-is-full(q+1)", value_same(st.locals["full_outlay_of_1_more"], full_of(S, self, st.locals["q"] + 1))))
+    return out
+
+
+ALLOC_STEP_UP = LoopSpec(_alloc_inner_inv, name="step back up while one more unit fits")
+
+
 # ---------------------------------------------------------------------------- verification of the body
 def verify_allocate(ex, contract, timeout_ms=30000):
     from pyvc.verify import FuncReport, entry_state, discharge, heap_map
